@@ -208,7 +208,15 @@ class Obj:
             return np.asarray(p, dtype=float).reshape(-1)
         if k == "sample":
             np.random.seed(rng_seed % (2 ** 31))
-            return [[int(ch) for ch in s] for s in c.sample(5, seed=rng_seed)]
+            skw = {}
+            if self.cfg.cls in ("Circuit", "CircuitDense"):      # the MPS samplers take no order / group_size / qubits
+                if q.get("order"):
+                    skw["order"] = tuple(q["order"])
+                if q.get("gs"):
+                    skw["group_size"] = int(q["gs"])
+                if q.get("qubits"):
+                    skw["qubits"] = tuple(q["qubits"])
+            return [[int(ch) for ch in s] for s in c.sample(int(q.get("C", 5)), seed=rng_seed, **skw)]
         if k == "gbg":
             return [[int(ch) for ch in s] for s in c.sample_gate_by_gate(4, seed=rng_seed)]
         if k == "sampleprob":
@@ -388,6 +396,10 @@ def replay_behaviour(beh, cfg, tables, tid, N, seed):
                 continue        # ... and two-site operators only on an edge
             if "opt" not in q:
                 q["opt"] = ["", "", "dtype", "seq"][(seed + 3 * seq[0]) % 4]
+                if k == "sample":
+                    q["order"] = [[], [2, 1, 0], [0, 1, 2], [1, 2, 0], [2, 0, 1]][(seed + seq[0]) % 5]
+                    q["gs"] = [1, 1, 2, 10][(seed + seq[0]) % 4]
+                    q["C"] = 6
             if k == "expec":
                 q["G"] = dw_array(tables["ops"][q["op"]])
             fields = {kk: vv for kk, vv in q.items() if kk not in ("G",)}
@@ -417,6 +429,7 @@ def enum_behaviour(seq3, k):
     """an enumerated gate sequence -> behaviour: gates, query battery, parameter update, battery again"""
     b = [{"op": "gate", "g": g} for g in seq3]
     b += [{"op": "query", "q": dict(q)} for q in BATTERY]
+    b += _sample_block()
     pars = [i for i, g in enumerate(seq3) if g["par"]]
     if pars:
         if k % 2 == 0:
@@ -437,7 +450,21 @@ def enum_behaviour(seq3, k):
           {"op": "query", "q": {"kind": "ptr", "keep": [2, 0], "opt": "seq"}}]
     for q in ({"kind": "expec", "op": "ZX", "where": [2, 0], "opt": "seq"}, {"kind": "expec", "op": "Z", "where": [0], "opt": "dtype"}):
         b += [{"op": "query", "q": dict(q)}, {"op": "query", "q": dict(q)}]
+    b += _sample_block()
     return b
+
+
+def _sample_block():
+    """several sample calls on ONE object with different explicit orders / group sizes / qubit subsets (the
+    conditional memo must be keyed by which qubits were fixed), followed by expectations near site 0 (the MPS
+    samplers must not touch the canonical-form record of the stored state)"""
+    return [{"op": "query", "q": dict(q)} for q in (
+        {"kind": "sample", "order": [2, 1, 0], "gs": 1, "C": 8, "opt": ""},
+        {"kind": "sample", "order": [0, 1, 2], "gs": 1, "C": 8, "opt": ""},
+        {"kind": "sample", "order": [1, 2, 0], "gs": 1, "C": 8, "opt": ""},
+        {"kind": "sample", "order": [1, 0], "qubits": [0, 1], "gs": 1, "C": 4, "opt": ""},
+        {"kind": "sample", "opt": ""},
+        {"kind": "expec", "op": "Z", "where": [0], "opt": ""}, {"kind": "expec", "op": "P01", "where": [1], "opt": ""})]
 
 
 def _untagged(gates):
@@ -880,7 +907,10 @@ def random_walk(seed, tid, cfgs, N, length, thorough):
                     continue
                 r = dict(base, ev="rel", kind=k, exc="", dq=0, h=_hflags(o.accepted, o))
                 try:
-                    v = o.query({"kind": k}, rng_seed=seed % 100000)
+                    v = o.query({"kind": k, "order": list(range(N))[::-1], "gs": 1}, rng_seed=seed % 100000)
+                    if k == "sample":
+                        v = v + o.query({"kind": k, "order": list(range(N)), "gs": 1}, rng_seed=seed % 100000 + 1)
+                        v = v + o.query({"kind": k, "gs": 2}, rng_seed=seed % 100000 + 2)
                     pr = np.abs(ref) ** 2
                     bad = 0
                     for item in v:
@@ -980,9 +1010,11 @@ def run(ctx):
         model_run(ctx, "MC_C07", "MC_thorough_permauto.cfg", "CircuitPermMPS auto-mps N=3 depth 3", PM, w)
     must_fail(ctx, "MC_dev_permswap.cfg", "RejectClean", "KF-C07-1: SWAP on CircuitPermMPS raises after the permutation was updated")
     must_fail(ctx, "MC_dev_upd.cfg", "RejectClean", "KF-C07-4: update_params_from raises half-way on a circuit holding SWAP / IDEN / a raw gate")
+    must_fail(ctx, "MC_dev_condkey.cfg", "QueriesAgree", "a memo of sampled conditionals keyed by the values of the fixed qubits only (not by which qubits)")
     must_fail(ctx, "MC_dev_sharedinfo.cfg", "InfoSound", "copy() that shares gate_opts['info'] between the two objects: a gate on one falsifies the record of the other")
     if not quick:
         must_fail(ctx, "MC_dev_permctrl.cfg", "PermSound", "KF-C07-2: controls are not translated to physical sites")
+        must_fail(ctx, "MC_dev_sampleinfo.cfg", "InfoSound", "an MPS sampler that writes (0, 0) into the canonical-form record of the stored state")
         must_fail(ctx, "MC_dev_expeccopy.cfg", "InfoSound", "pre-fix local_expectation(dtype=...) that canonicalises a copy of the MPS but records the centre in the object's info")
         must_fail(ctx, "MC_dev_ctliden.cfg", "QueriesAgree", "pre-fix (0e107742) reverse light cone that drops the tensors of a controlled IDEN (cut wire)")
         must_fail(ctx, "MC_dev_copy.cfg", "QueriesAgree", "pre-fix (b38acc9f) copy() that loses _marginal_storage_size, sample() on the copy raises")
